@@ -25,17 +25,18 @@ VALUES = {
     # -1 / -1.0: values the library stores without complaint although its helpers cannot use them (a context
     # that fails half-way through *entering* must still leave every setting as it was)
     "decimals": list(range(10)) + [-1],
-    "atol": [0.0, 1e-9, 1e-3, 0.5, -1.0],
+    "atol": [0.0, 1e-9, 1e-3, 0.5, -1.0, "A2"],  # A2: a per-column tolerance array (np.isclose broadcasts it)
     "rtol": [0.0, 1e-6, 0.1, -1.0],
     "alias": ["fl", "", "*", "fz"],
-    "logger": ["L0", "L1", "L2"],
+    "logger": ["L0", "L1", "L2", "L3"],
     "factory_manager": ["F0", "F1", "F2"],
 }
 DEFAULT = {"float_type": "float64", "decimals": 3, "atol": 1e-3, "rtol": 0.0, "alias": "fl",
            "logger": "L0", "factory_manager": "F0"}
 FLOAT_TYPES = {"float64": np.float64, "float32": np.float32, "float16": np.float16, "float": float}
 OBS = ["str", "close", "dtype", "alias", "fm", "logger", "rule", "fll", "vars", "arr", "fld", "fld_late", "mkexp", "ruletext",
-       "termparams", "tofloat", "xy", "pyexp", "fll_p", "imp", "func", "func_op", "dtype_arr", "str3d", "func_mod"]
+       "termparams", "tofloat", "xy", "pyexp", "fll_p", "imp", "func", "func_op", "dtype_arr", "str3d", "func_mod",
+       "str_forms", "debug", "logrec", "conseq_hedge", "imp_ops", "configure", "const_dtype", "cmp", "fuzzify", "fll_engine"]
 
 _POOL: dict[str, object] = {}
 
@@ -47,6 +48,34 @@ class Quite(fl.Hedge):
 
 class Tri2(fl.Triangle):
     pass
+
+
+class Min2(fl.Minimum):
+    pass
+
+
+class Max2(fl.Maximum):
+    pass
+
+
+class Gen2(fl.General):
+    pass
+
+
+class Cen2(fl.Centroid):
+    pass
+
+
+class _ListHandler(logging.Handler):
+    def __init__(self) -> None:
+        super().__init__(level=logging.DEBUG)
+        self.count = 0
+
+    def emit(self, record) -> None:  # noqa: ARG002
+        self.count += 1
+
+
+_L3_HANDLER = _ListHandler()
 
 
 def _twice(x):
@@ -61,10 +90,22 @@ def pool(code: str):
             lg.setLevel(logging.ERROR)
             lg.propagate = False
             _POOL[n] = lg
+        # L3 is a logger at DEBUG level: while it is the logger in force the library is in debugging mode and its
+        # debug records go to L3's handler (and nowhere else)
+        l3 = logging.getLogger("verif.L3")
+        l3.setLevel(logging.DEBUG)
+        l3.propagate = False
+        l3.addHandler(_L3_HANDLER)
+        _POOL["L3"] = l3
+        _POOL["A2"] = np.array([1e-3, 1e-1])
         _POOL["F0"] = env.default_factory_manager()
         f1 = fl.FactoryManager()
         f1.hedge.constructors["quite"] = Quite
         f1.term.constructors["Tri2"] = Tri2
+        f1.tnorm.constructors["Min2"] = Min2
+        f1.snorm.constructors["Max2"] = Max2
+        f1.activation.constructors["Gen2"] = Gen2
+        f1.defuzzifier.constructors["Cen2"] = Cen2
         f1.function.objects["twice"] = fl.Function.Element("twice", "Twice", "Function", _twice, arity=1, precedence=100)
         div = f1.function.objects["/"]
         f1.function.objects["//"] = fl.Function.Element("//", "Floor division", "Operator", np.floor_divide, arity=2,
@@ -81,7 +122,7 @@ def pool(code: str):
 def realize(key: str, code):
     if key == "float_type":
         return FLOAT_TYPES[code]
-    if key in ("logger", "factory_manager"):
+    if key in ("logger", "factory_manager") or code == "A2":
         return pool(code)
     return code
 
@@ -232,12 +273,13 @@ class Interp:
                               found=describe(key, real), ctx_depth=self.ctx_depth)
                 continue
             want = realize(key, self.model[key])
-            same = (real is want) if key in ("float_type", "logger", "factory_manager") else (
+            same = (real is want) if key in ("float_type", "logger", "factory_manager") or isinstance(want, np.ndarray) or isinstance(real, np.ndarray) else (
                 type(real) is type(want) and real == want)
             if not same:
                 self.fail("settings_mismatch", where=where, key=key, expected=repr(self.model[key]),
                           found=describe(key, real), ctx_depth=self.ctx_depth)
-        if set(v) != {"float_type", "decimals", "atol", "rtol", "alias", "logger", "_factory_manager"}:
+        if not {"float_type", "decimals", "atol", "rtol", "alias", "logger", "_factory_manager"} <= set(v):
+            # a documented setting disappeared; further private attributes are the library's own business
             self.fail("settings_mismatch", where=where, key="<attrs>", found=sorted(v))
 
     # ---- statements --------------------------------------------------------
@@ -654,6 +696,62 @@ class Interp:
             except SyntaxError:
                 got = None
             return got, (-3.0 if m["factory_manager"] == "F2" else 1.0)
+        if what == "str_forms":
+            x = 1.0 / 3.0
+            f = f"{x:.{d}f}"
+            return (fl.Op.str(np.array(x)), fl.Op.str([x, x]), fl.Op.str(np.array([x, x]), delimiter=","),
+                    fl.Op.str(np.array([[x, x], [x, x]]))), (f, f"{f} {f}", f"{f},{f}", f"{f} {f}\n{f} {f}")
+        if what == "debug":
+            return bool(fl.settings.debugging), m["logger"] == "L3"
+        if what == "logrec":
+            before = _L3_HANDLER.count
+            fl.Rule.create("if a is x then b is y", tiny_engine())
+            fl.Function.create("f", "1 + 2")
+            return _L3_HANDLER.count > before, m["logger"] == "L3"
+        if what == "conseq_hedge":
+            try:
+                fl.Rule.create("if a is x then b is quite y", tiny_engine())
+                ok = True
+            except SyntaxError:
+                ok = False
+            return ok, m["factory_manager"] == "F1"
+        if what == "imp_ops":
+            got = []
+            imp = self.persistent_imp
+            for fn, name in ((imp.tnorm, "Min2"), (imp.snorm, "Max2"), (imp.activation, "Gen2"), (imp.defuzzifier, "Cen2")):
+                try:
+                    got.append(type(fn(name)).__name__ == name)
+                except ValueError:
+                    got.append(False)
+            return got, [m["factory_manager"] == "F1"] * 4
+        if what == "configure":
+            e = fl.Engine("c", output_variables=[fl.OutputVariable("o")], rule_blocks=[fl.RuleBlock("r")])
+            try:
+                e.configure(conjunction="Min2", disjunction="Max2", implication="Min2", aggregation="Max2",
+                            defuzzifier="Cen2", activation="Gen2")
+                ok = type(e.rule_blocks[0].conjunction).__name__ == "Min2" and type(e.output_variables[0].defuzzifier).__name__ == "Cen2"
+            except ValueError:
+                ok = False
+            return ok, m["factory_manager"] == "F1"
+        if what == "const_dtype":
+            ft = str(np.dtype(FLOAT_TYPES[m["float_type"]]))
+            return str(fl.Constant("k", 0.25).membership(np.array([1.0, 2.0])).dtype), ft
+        if what == "cmp":
+            ft = str(np.dtype(FLOAT_TYPES[m["float_type"]]))
+            # eq/neq/ge/le are exact whatever the tolerances in force; gt/lt answer in the float type in force
+            b = 1.0 + 1e-4
+            return (bool(fl.Op.eq(1.0, b)), bool(fl.Op.neq(1.0, b)), bool(fl.Op.ge(1.0, b)), bool(fl.Op.le(b, 1.0)),
+                    str(fl.Op.gt(2.0, 1.0).dtype), str(fl.Op.lt(np.array([1.0, 3.0]), 2.0).dtype)), (False, True, False, False, ft, ft)
+        if what == "fuzzify":
+            v = tiny_engine().input_variables[0]
+            return str(v.fuzzify(0.25)), f"{0.5:.{d}f}/x"
+        if what == "fll_engine":
+            eng = fl.Engine("e", input_variables=[fl.InputVariable("a", minimum=0.0, maximum=1.0, terms=[fl.Triangle("x", 0.0, 0.5, 1.0)])],
+                            output_variables=[fl.OutputVariable("b", terms=[fl.Constant("k", 0.25)])])
+            got = fl.FllExporter().to_string(eng)
+            want_lines = [f"  range: {0.0:.{d}f} {1.0:.{d}f}", f"  term: x Triangle {0.0:.{d}f} {0.5:.{d}f} {1.0:.{d}f}"
+                          + ("" if close(1.0, 1.0) else f" {1.0:.{d}f}"), f"  term: k Constant {0.25:.{d}f}" + ("" if close(1.0, 1.0) else f" {1.0:.{d}f}"), "  default: nan"]
+            return [ln in got.split("\n") for ln in want_lines], [True] * 4
         if what == "tofloat":
             ft = FLOAT_TYPES[m["float_type"]]
             return type(fl.to_float(1)).__name__, ft.__name__
